@@ -13,7 +13,8 @@ simulation of the same design (spec/SVSemTrace.tla, every output port every cycl
            mismatch or a port-map error.  Port arrays / interface members are separate PyMTL ports and are
            matched by the back end's name mangling.
   cross    the SystemVerilog text of the same design (C03's artefact) is validated on the same recorded
-           vectors; agreement / disagreement is recorded in the evidence
+           vectors; agreement / disagreement is recorded in the evidence (not for the grid families nd / lv,
+           and in the quick tier not for the expression families: C03 validates that text on its own vectors)
   canaries flipped recorded output bit, swapped operator, swapped struct fields in the port map, reversed
            list index inside a struct port, exchanged elements of a flattened port array: all must be rejected
 
